@@ -695,3 +695,39 @@ pub fn sample_one<C: Debug>(strat: &BoxedStrategy<C>, seed: u64) -> C {
 pub fn boxed<S: Strategy + 'static>(s: S) -> BoxedStrategy<S::Value> {
     s.boxed()
 }
+
+/// Used by fuzz targets: judge one verdict outside of any stage.  An unlisted failure writes a
+/// replay file, prints the VIOLATION line and aborts the process (libFuzzer then saves the input).
+pub fn fuzz_judge<C: CaseT>(prop: &'static str, kind: &str, case: &C, v: Verdict) {
+    use std::sync::OnceLock;
+    static KNOWN: OnceLock<KnownFindings> = OnceLock::new();
+    let known = KNOWN.get_or_init(|| KnownFindings::load(&Path::new(VERIF_ROOT).join("known-findings.txt")));
+    if let Some(f) = v.fail {
+        if known.lookup(prop, &f.sig).is_some() {
+            return;
+        }
+        let dir = Path::new(VERIF_ROOT).join("replays");
+        let _ = std::fs::create_dir_all(&dir);
+        let body = serde_json::json!({"property": prop, "kind": kind, "stage": "fuzz", "flavour": "fuzz", "sig": f.sig, "detail": f.detail, "config": null, "case": case});
+        let text = serde_json::to_string_pretty(&body).unwrap();
+        let mut h = DefaultHasher::new();
+        text.hash(&mut h);
+        let path = dir.join(format!("{}-{}-fuzz-{:016x}.json", prop, kind, h.finish()));
+        let _ = std::fs::write(&path, text);
+        println!("VIOLATION property={} replay={}", prop, path.display());
+        println!("  stage=fuzz sig={} detail={}", f.sig, truncate(&f.detail, 600));
+        std::process::abort();
+    }
+}
+
+/// run a check inside a fuzz target, converting a library panic into a failure verdict
+pub fn fuzz_check<C: CaseT>(prop: &'static str, kind: &str, case: &C, check: impl Fn(&C) -> Verdict) {
+    let v = match catch_unwind(AssertUnwindSafe(|| check(case))) {
+        Ok(v) => v,
+        Err(_) => {
+            let msg = take_last_panic();
+            Verdict::fail(format!("{}/panic:{}", prop, panic_sig(&msg)), format!("panicked: {}", msg))
+        }
+    };
+    fuzz_judge(prop, kind, case, v);
+}
